@@ -103,6 +103,25 @@ class C10(F.PropCheck):
             evs += self.ticks(rng, 3000000, 'exact10', sensor, maxn=600); tags.append('interrupted')
         return evs, tags
 
+    def stuck_script(self, rng, mu, md, ms, step, pre_us=30000):
+        """callbacks for an auto-calibration whose sensor is plausible until the run of `step` (1..3) is under way and then reports movement
+        for ever: 10 ms callbacks up to the switch (start delay 0.87 s after the trigger, 1.01 s before each reversal), coarse ones after it"""
+        run = [mu + ms, md + ms, mu + ms]
+        t_sw = 870 + sum(run[:step - 1]) + 1010 * (step - 1) + run[step - 1] // 2          # ms after the trigger
+        evs = [('CB', [10000, 2], b'')] * (t_sw // 10)
+        evs += self.ticks(rng, 612_000_000, 'coarse', 1, maxn=3200)
+        return evs
+
+    def fam_autocal_stuck(self, rng, tier):
+        """the sensor gets stuck at "moving" during step 1, 2 or 3 of the auto-calibration: that step must end in the failure outcome"""
+        mu = rng.choice([1500, 2500, 3000]); md = rng.choice([mu, mu + 200, 1700]); ms = rng.choice([0, 100, 250])
+        step = rng.choice([3, 3, 2, 1])
+        evs = [self.cfg(af=1, rf=1, pos0=0, mu=mu, md=md, ms=ms, margin=rng.choice([-1, 5, 50]))]
+        evs += [('CB', [10000, 2], b'')] * 3
+        evs.append(rng.choice([('TASK', [rng.randrange(0, 101), -1], b''), ('RECAL', [0, 0, 0], b'')]))
+        evs += self.stuck_script(rng, mu, md, ms, step)
+        return evs, ['autocal', 'sensor-stuck-in-step%d' % step]
+
     def fam_interrupt(self, rng, tier):
         """commands in the second after a stop at 10-20 ms resolution (start delay / delayed trigger), re-requested targets"""
         full = rng.choice([2000, 5000, 17300])
@@ -156,7 +175,7 @@ class C10(F.PropCheck):
         return evs, ['random', 'type%d' % ttype]
 
     def gen_cases(self, rng, n, tier):
-        fams = [(self.fam_task_rs, 30), (self.fam_manual, 12), (self.fam_ten_minutes, 3), (self.fam_autocal, 12), (self.fam_interrupt, 12),
+        fams = [(self.fam_task_rs, 30), (self.fam_manual, 12), (self.fam_ten_minutes, 3), (self.fam_autocal, 12), (self.fam_autocal_stuck, 2), (self.fam_interrupt, 12),
                 (self.fam_fb, 10), (self.fam_random, 21)]
         tot = sum(w for _, w in fams); cases = []
         for i in range(n):
